@@ -26,15 +26,8 @@ def run_case(mode, spec, tree):
     target = B.tree_py(tree)
     before = B.snapshot(target)
     ctx = B.Ctx()
-    try:
-        s = B.mkspec(spec, ctx)
-        if mode == 'match':
-            s = Match(s)
-    except vlib.MachineryError:
-        raise
-    except Exception as e:
-        raise vlib.MachineryError('cannot build the spec %r: %r' % (spec, e))
-    ob = B.observe(lambda: glom.glom(target, s))
+    s, failed = B.build(spec, ctx, wrap=Match if mode == 'match' else None)
+    ob = failed if failed else B.observe(lambda: glom.glom(target, s))
     ob['calls'] = list(ctx.calls)
     ob['same'] = bool(ob['ok'] and ob['res'] is target)
     ob['unchanged'] = B.snapshot(target) == before
